@@ -13,6 +13,10 @@ AttrKind(g) == CASE g = "string" -> [k |-> "string", null |-> FALSE]
                  [] g = "bool" -> [k |-> "bool", null |-> FALSE]
                  [] g = "time.Time" -> [k |-> "time", null |-> FALSE]
                  [] g = "*uint64" -> [k |-> "uint64", null |-> TRUE]
+                 [] g = "*[]uint8" -> [k |-> "bytes", null |-> TRUE]
+                 [] g = "*time.Time" -> [k |-> "time", null |-> TRUE]
+                 [] g = "*bool" -> [k |-> "bool", null |-> TRUE]
+                 [] g = "*string" -> [k |-> "string", null |-> TRUE]
                  [] OTHER -> [k |-> "unsupported", null |-> FALSE]
 
 \* the api tag split at commas
@@ -26,6 +30,9 @@ SplitComma(s) ==
                 ELSE Scan(i + 1, cur \o SubSeq(s, i, i), acc)
          IN Scan(1, "", <<>>)
 
+\* the json name of a field: "" = no json key at all, "~" = the key with an empty value (json:"")
+JName(f) == IF f.json = "~" THEN "" ELSE f.json
+
 IsAttr(f) == f.api = "attr"
 IsRel(f)  == SplitComma(f.api)[1] = "rel"
 Tagged(f) == IsAttr(f) \/ IsRel(f)
@@ -34,22 +41,22 @@ Tagged(f) == IsAttr(f) \/ IsRel(f)
 Sane(sh) ==
     /\ sh.id = "ok"
     /\ \A i \in 1..Len(sh.fields) : LET f == sh.fields[i] IN
-          /\ IsAttr(f) => AttrKind(f.gotype).k # "unsupported" /\ f.json \notin {"", "id"}
+          /\ IsAttr(f) => AttrKind(f.gotype).k # "unsupported" /\ JName(f) \notin {"", "id"}
           /\ IsRel(f) => /\ Len(SplitComma(f.api)) \in {2, 3}
                          /\ SplitComma(f.api)[2] # ""
                          /\ f.gotype \in {"string", "[]string"}
-                         /\ f.json \notin {"", "id"}
+                         /\ JName(f) \notin {"", "id"}
     /\ \A i, j \in 1..Len(sh.fields) :
-          (Tagged(sh.fields[i]) /\ Tagged(sh.fields[j]) /\ sh.fields[i].json = sh.fields[j].json) => i = j
+          (Tagged(sh.fields[i]) /\ Tagged(sh.fields[j]) /\ JName(sh.fields[i]) = JName(sh.fields[j])) => i = j
 
 \* the type the tags and Go field types declare
 Expected(sh) ==
     LET A == {i \in 1..Len(sh.fields) : IsAttr(sh.fields[i])}
         R == {i \in 1..Len(sh.fields) : IsRel(sh.fields[i])}
-        idx(S, n) == CHOOSE i \in S : sh.fields[i].json = n
+        idx(S, n) == CHOOSE i \in S : JName(sh.fields[i]) = n
     IN [name |-> "st",
-        attrs |-> [n \in {sh.fields[i].json : i \in A} |-> AttrKind(sh.fields[idx(A, n)].gotype)],
-        rels |-> [n \in {sh.fields[i].json : i \in R} |->
+        attrs |-> [n \in {JName(sh.fields[i]) : i \in A} |-> AttrKind(sh.fields[idx(A, n)].gotype)],
+        rels |-> [n \in {JName(sh.fields[i]) : i \in R} |->
                     LET f == sh.fields[idx(R, n)]  t == SplitComma(f.api) IN
                     [to1 |-> f.gotype # "[]string", tt |-> t[2], tn |-> IF Len(t) = 3 THEN t[3] ELSE ""]]]
 
